@@ -1,2 +1,4 @@
-#[cfg(any(not(verif_select), verif_gh))] #[path = "/verif/harness/ntp_proto/gh_probe_packet.rs"] pub(crate) mod gh;
+#[cfg(any(not(verif_select), verif_gh))]
+#[path = "/verif/harness/ntp_proto/gh_probe_packet.rs"]
+pub(crate) mod gh;
 pub(crate) use super::extension_fields::verif_probe as extension_fields_probe; // packet::extension_fields is private: crate::packet::verif_probe::extension_fields_probe
